@@ -443,6 +443,15 @@ func c06Run(c *engine.Ctx) {
 		}
 	}
 	lits = append(lits, "Inf", "inf", "NaN", "nan", "Infinity", "+Inf", "-Inf", "1e1000000000000000000000", "123456789012345678901234567890", "0.000000000000000000000000000000000000000000001")
+	// plain digit strings of 1..25 digits (all nines, a one followed by zeros, 95..., 12345...),
+	// the int64/uint64 limits and their neighbours, and decimal fractions of 1..25 digits: a fast
+	// path for "simple" literals ends somewhere in this range
+	for n := 1; n <= 25; n++ {
+		lits = append(lits, strings.Repeat("9", n), "1"+strings.Repeat("0", n-1), "95"+strings.Repeat("0", n-1), ("1234567890123456789012345")[:n],
+			"0."+strings.Repeat("0", n-1)+"1", "0."+strings.Repeat("9", n), "1."+("2345678901234567890123456")[:n], "-"+strings.Repeat("9", n), "-95"+strings.Repeat("0", n-1))
+	}
+	lits = append(lits, "9223372036854775806", "9223372036854775807", "9223372036854775808", "9223372036854775809", "-9223372036854775808", "-9223372036854775809",
+		"18446744073709551615", "18446744073709551616", "9007199254740992", "9007199254740993", "9500000000000000000", "4611686018427387904")
 	c.Note("numeric_literals", len(lits))
 	c.Parallel(len(lits), func(i int) {
 		for _, tpl := range []string{"POINT(%s 2)", "LINESTRING(1 2,3 %s)", "POINT Z(1 2 %s)"} {
